@@ -105,6 +105,8 @@ def _(self: FailureManager, job: Job, step: Step, exception: Exc):
     ensures(self.n_recover == old(self.n_recover) + 1 and self.recover_failed == old(self.recover_failed))
     raises(FailureHandlingException, ensures=self.n_recover == old(self.n_recover) + 1 and self.recover_failed == old(self.recover_failed) + 1)
     raises(WorkflowExecutionException, ensures=self.n_recover == old(self.n_recover) + 1 and self.recover_failed == old(self.recover_failed) + 1)
+    # ... or gives up by re-raising the very exception object it was handed (what DummyFailureManager.recover is proved to do)
+    raises(BaseException, reraise="exception", ensures=self.n_recover == old(self.n_recover) + 1 and self.recover_failed == old(self.recover_failed) + 1)
 
 
 @contract("streamflow/core/recovery.py", "recoverable.wrapper", stmt="Try#0")
@@ -119,5 +121,5 @@ def _(step: Step, job: Job):
     # a generic failure (GHOST.failed == 1) reaches here only as the exception raised by the single recover() call
     raises(asyncio.CancelledError, ensures=step.workflow.context.failure_manager.n_recover == old(step.workflow.context.failure_manager.n_recover) and GHOST.failed == 0)
     raises(KeyboardInterrupt, ensures=step.workflow.context.failure_manager.n_recover == old(step.workflow.context.failure_manager.n_recover) and GHOST.failed == 0)
-    raises(WorkflowException, ensures=step.workflow.context.failure_manager.n_recover == old(step.workflow.context.failure_manager.n_recover) + GHOST.failed
+    raises(Exception, ensures=step.workflow.context.failure_manager.n_recover == old(step.workflow.context.failure_manager.n_recover) + GHOST.failed
            and step.workflow.context.failure_manager.recover_failed == old(step.workflow.context.failure_manager.recover_failed) + GHOST.failed)
